@@ -4,5 +4,6 @@ CONSTANTS
   Sizes <- S5
   Cuts <- CutsBig
   PersistentReader = FALSE
+  BreakAllowed = FALSE
 INVARIANT Emit
 CHECK_DEADLOCK FALSE
